@@ -111,6 +111,16 @@ def gen_case(rng, tier):
                     n['mdsyn'] = 'hex'
                 d = copy.deepcopy(d)
                 d['items'] = [it for it in d['items'] if it[0] != k] + [[k, SP('clear')]]
+        if i > 0 and rng.random() < 0.1 and out:
+            # a deleting mapping (names as keys) written over a list, some of its own entries weaker than the rest: it replaces the
+            # list as it stands - nothing of it is measured against the elements it removes
+            prev = out[-1]
+            tops = [(k, n) for k, n in prev['items'] if n['t'] == 'seq' and not emit.has_flags(n) and not any(emit.has_flags(x) for _, x in emit.walk(n)) and not (fpath and k == fpath[0])]
+            if tops:
+                k, _ = rng.choice(tops)
+                repl = M([['ra', L([S(7)], prio=-1) if rng.random() < 0.5 else S(8, prio=-1)], ['rb', S(2)], ['rc', M([['x', S(1, prio=-1)]])]], **{'del': True})
+                d = copy.deepcopy(d)
+                d['items'] = [it for it in d['items'] if it[0] != k] + [[k, repl]]
         if i > 0 and rng.random() < 0.15:
             # an explicitly deleting scalar that merely is falsy: it has a value, the key stays
             tops = [k for k, _ in docs[i - 1]['items'] if not (fpath and k == fpath[0])]
